@@ -250,6 +250,7 @@ def run(ctx) -> None:
     raise AnalysisError(f'only {n_sites} entropy sites found (matcher rot)')
   r2_params(ctx)
   r3_chain(ctx)
+  r3_seed_not_folded(ctx)
   r4_sets(ctx)
   r6_no_process_state(ctx)
 
@@ -371,6 +372,38 @@ def r3_chain(ctx) -> None:
     ctx.check(fwd, 'R3', f'{ci.name}.__call__ forwards seed', call.node, 'seed passed on to the policy/designer factory',
               f'{ci.name}.__call__(seed) does not pass the seed on: a seeded benchmark run is not reproducible',
               construct=f'{ci.name}:seed', func=call.qualname)
+
+
+def r3_seed_not_folded(ctx) -> None:
+  """A seed is forwarded as given: no many-to-one arithmetic (`%`, `&`, `//`, `>>`, `^`, hash/abs) is applied to it on
+  the way, or distinct seeds replay one another's run."""
+  n = 0
+  bad = []
+  files = list(FILES) + ['vizier/_src/benchmarks/runners/benchmark_state.py', 'vizier/_src/benchmarks/runners/benchmark_runner.py',
+                         'vizier/_src/algorithms/policies/designer_policy.py']
+  seen = set()
+  for f in files:
+    if f in seen or not ctx.src.exists(f):
+      continue
+    seen.add(f)
+    mi = ctx.index.module_of_file(f)
+    fns = list(mi.functions.values()) + [m for c in mi.classes.values() for m in c.methods.values()]
+    for fi in fns:
+      seeds = [p for p in fi.params if 'seed' in p.lower()]
+      if not seeds:
+        continue
+      n += 1
+      for x in ast.walk(fi.node):
+        if isinstance(x, ast.BinOp) and isinstance(x.op, (ast.Mod, ast.BitAnd, ast.FloorDiv, ast.RShift, ast.BitXor)):
+          if any(isinstance(y, ast.Name) and y.id in seeds for y in ast.walk(x.left)) and not isinstance(x.left, ast.Constant):
+            # string formatting `'..%s' % seed` has the seed on the right
+            bad.append((fi, x))
+        if isinstance(x, ast.Call) and dotted(x.func) in ('hash', 'abs') and x.args and isinstance(x.args[0], ast.Name) and x.args[0].id in seeds:
+          bad.append((fi, x))
+  ctx.check(not bad, 'R3', 'seeds are forwarded unreduced', 'modules on the seeded path',
+            f'{n} functions with a seed parameter examined',
+            '; '.join(f'{fi.qualname}: `{unparse(x, 40)}`' for fi, x in bad[:3]) + ': the seed is folded into a smaller range before it is used, so '
+            'different seeds (e.g. (repeat << 32) | base) produce the identical run', construct='seed-folded', func=bad[0][0].qualname if bad else None)
 
 
 def r4_sets(ctx) -> None:
